@@ -15,10 +15,17 @@ In the protocol model the channel is an instance, not a new field: the key type 
 
 * `wds_skipOK`: the skip (1) needs NO frame hypothesis - a skipped request announces no address,
   so (every changed address being announced, which is the coverage premise of `SkipOK`) the world
-  did not change at all.  `convergence_wds` is `ProtocolV2.convergence` for this decision.
-* `narrowed_eq_full`: the narrowing (2) - keep what is held, replace the named resources - yields
-  exactly the full generation, provided the resource of an address depends on that address only
-  (`PerAddress`) and every changed address is named.
+  did not change at all.  `convergence_wds` is `ProtocolV2.convergence` for this decision; it is a
+  statement about the SKIP only: in the protocol a pushed request installs the FULL generation
+  (`pushDone`), so it says nothing about the narrowing (2).
+* `narrowed_eq_full` is a STAND-ALONE LEMMA about (2), not wired into the protocol: keep what is
+  held, replace the named resources - this yields exactly the full generation, provided the
+  resource of an address depends on that address only (`PerAddress`) and every changed address is
+  named.  `PerAddress` is an idealisation that is FALSE for the real WDS: an Address resource
+  embeds the services and the waypoint of the workload, so a change of a service must name the
+  workloads that embed it (the ambient index does that; no theorem here covers it).  The content
+  of WDS on the real code is covered by the ambient `converge` histories (ztunnel-like delta
+  client vs a fresh one) and by C03, not by this file.
 
 Not modelled: a Forced request without addresses is skipped by the real generator and regenerated
 by the protocol (`step`, `pushDone`: `r.forced || dec ..`); under the same coverage premise nothing
